@@ -106,6 +106,19 @@ CHECKS = {
          "expected id, and no font; the twin must compile."),
    note=TB + "For text-level rules (undefined names, features, pass structure, attribute roles) the expectation is written in the injector table, not derived in Lean; completeness of the recursion check (every cycle is found) is not proved.",
    design="4/C10"),
+ "C11": dict(
+   technique="Lean 4 theorems over a model of main()'s argument handling and of the fixed-width range loops, instantiated at buffer sizes/guards re-extracted from the source each run, tied by an argv correspondence run; the runtime part of the property is explored with ASan/UBSan/assert builds (exploration, not proof)",
+   text=("Proof (partial by nature): Grc.ArgsGen.main_writes_inbounds / main_no_null_deref / main_exit - for EVERY argument vector, every write of main's option and file-name handling into rgch[20], "
+         "rgchOutputFile[128], rgchwOutputFontFamily[128] (digit loop of -n/-v/-w, strcpy of the output name, font-name conversion, derived name xyz_gr.ttf) is inside its buffer, the NULL ending argv "
+         "is never dereferenced ('-e' last) and the handling ends in `return 2` or proceeds; range_loops_terminate - every inclusive 16/32-bit range loop of AssignGlyphIDsToClassMember visits first..last "
+         "once and stops, also for ranges ending at 0xFFFF/0xFFFFFFFF (rangeLoop_unguarded_diverges shows the loop without the in-body break never ends); dup_loop_bounded. The constants and guard shapes the "
+         "theorems are instantiated at are re-extracted from main.cpp / ErrorCheckClasses.cpp / GdlGlyphClassDefn.cpp on every run (obligations consts_safe, range_loops_guarded, gen_name_shape); the model "
+         "is compared with the real main() on generated argument vectors (outcome class, derived output name, error-file name, quiet/debug flags). "
+         "EXPLORATION (not proof): the ASan+UBSan/assertions build of compiler and gdlpp on a corpus of 33 past failures, token/byte/structure-aware mutations of valid programs, semantic edge cases and "
+         "argument vectors: exit status in {0,1,2}, no signal, no sanitizer memory report, linear time bound on the release build, no Assert failure on an accepted program (assert hits are re-run on an "
+         "ASan build without assertions)."),
+   note=TB + "Memory safety, termination and timing of the parser, checkers, code generator and preprocessor are OBSERVED on explored inputs only; a theorem cannot exhibit a segfault. UBSan arithmetic reports (signed overflow of option numbers, LZ4's zero offset on NULL) are counted, not treated as violations (outside the property's wording). Well-formed fonts only.",
+   design="4/C11"),
  "C12": dict(
    technique="Lean 4 theorem over the limit table regenerated from constants.h + size-parameterised program families compiled around each limit and decoded strictly",
    text=("Proof: Grc.Lim.guarded_no_wrap — for each of 11 size limits (passes, rule slots, features, user slot attributes, replacement classes, glyph attributes, Glat-v1 attribute ids, pseudo-glyphs, "
